@@ -48,6 +48,9 @@ pub struct Case {
     /// 3 = predict(single-row matrix), 4 = predict(training rows stacked twice)
     #[serde(default)]
     pub ops: Vec<u8>,
+    /// fit the same forest a third time, on the first thread again
+    #[serde(default)]
+    pub refit_same_thread: bool,
     pub kind: String,
 }
 
@@ -357,6 +360,32 @@ impl C06 {
                 "forest-reads-ambient-rng",
                 format!("{}: the fit consumed {} / {} words from the ambient thread RNG (a seeded forest must only use its own seed)", ctx, a.words_consumed.unwrap_or(0), b.words_consumed.unwrap_or(0)),
             );
+        }
+        // triplet: the same forest a second time on THIS thread (after the pollution and the twin), under
+        // yet another ambient stream: state left behind by the first fit / by other estimators must not matter
+        if case.refit_same_thread {
+            let amb_c = case.ambient_a.as_ref().map(|t| TapeSpec::prng(t.seed ^ 0x5EC0_17D));
+            let (c2, _m) = fit_once(case, &amb_c);
+            rep.count("fault.same-thread-refit", 1);
+            rep.count("steps.forest_fits", 1);
+            if c2.words_consumed.unwrap_or(0) > 0 {
+                rep.fail("ambient-rng-consumed", "forest-reads-ambient-rng", format!("{}: the second fit on the same thread consumed {} ambient RNG words", ctx, c2.words_consumed.unwrap_or(0)));
+            }
+            if a.err.is_none()
+                && (c2.err != a.err
+                    || c2.bytes != a.bytes
+                    || bits(&c2.pred) != bits(&a.pred)
+                    || c2.oob.as_ref().map(|v| bits(v)) != a.oob.as_ref().map(|v| bits(v))
+                    || c2.alt.as_ref().map(|v| bits(v)) != a.alt.as_ref().map(|v| bits(v))
+                    || c2.single.as_ref().map(|v| bits(v)) != a.single.as_ref().map(|v| bits(v))
+                    || c2.tall.as_ref().map(|v| bits(v)) != a.tall.as_ref().map(|v| bits(v)))
+            {
+                rep.fail(
+                    "irreproducible",
+                    "second-fit-on-same-thread-differs",
+                    format!("{}: fitting the same forest a second time on the same thread gives a different {} (error: {:?})", ctx, if c2.bytes != a.bytes { "model" } else { "answer to the same call sequence" }, c2.err),
+                );
+            }
         }
         if a.err != b.err || a.bytes != b.bytes {
             let first = a.bytes.iter().zip(b.bytes.iter()).position(|(x, y)| x != y);
@@ -690,7 +719,7 @@ fn gen_case(batch: &str, _index: u64, seed: u64) -> Case {
         ops.push(pr.below(5) as u8);
     }
     pr.shuffle(&mut ops);
-    Case { task: task.into(), x, y, params, queries, ambient_a, ambient_b, pollute: pr.chance(0.5), ops, kind: kind.into() }
+    Case { task: task.into(), x, y, params, queries, ambient_a, ambient_b, pollute: pr.chance(0.5), ops, refit_same_thread: pr.chance(0.5), kind: kind.into() }
 }
 
 impl Property for C06 {
@@ -781,6 +810,11 @@ impl Property for C06 {
         if case.pollute {
             let mut c = case.clone();
             c.pollute = false;
+            push(c);
+        }
+        if case.refit_same_thread {
+            let mut c = case.clone();
+            c.refit_same_thread = false;
             push(c);
         }
         if case.ops.len() > 1 {
